@@ -47,7 +47,7 @@ def gen(r) -> Dict[str, Any]:
     for si in order:
         for _ in range(r.randint(1 if si >= nsrc else 0, 3)):
             hid += 1
-            sub = {"kind": "h", "id": hid, "source": si, "steps": r.choice([0, 0, 1, 2, 4]),
+            sub = {"kind": "h", "id": hid, "source": si, "steps": r.choice([0, 0, 1, 2, 4]), "bound": r.random() < 0.4,
                    "fail_on": [n for n in range(8) if r.random() < 0.1], "push": []}
             if nder and si < nsrc + nder:
                 for n in range(8):
@@ -63,7 +63,8 @@ def gen(r) -> Dict[str, Any]:
     for kind in ("pre", "post"):
         for _ in range(r.choice([0, 0, 1, 2])):
             hid += 1
-            s = {"kind": kind, "id": hid, "steps": r.choice([0, 1, 2]), "fail_on": [n for n in range(20) if r.random() < 0.05]}
+            s = {"kind": kind, "id": hid, "steps": r.choice([0, 1, 2]), "fail_on": [n for n in range(20) if r.random() < 0.05],
+                 "bound": r.random() < 0.4}
             subs.append(s)
             if r.random() < 0.2:
                 subs.append(dict(s))
